@@ -29,7 +29,7 @@ ASSUMPTIONS = [
     "differing dimension order without align: an exception of any type or a label-wise correct result are both accepted (statement: 'reordered by name or refused')",
     "order of aligned (outer-join) secondary labels is not asserted unless sort=True",
 ]
-MANDATORY = ["stack", "concatenate", "secondary:permuted", "secondary:differs", "secondary:single-label-differs", "dimorder:differs", "square",
+MANDATORY = ["dtype-checked:i", "dtype-checked:f", "stack", "concatenate", "secondary:permuted", "secondary:differs", "secondary:single-label-differs", "dimorder:differs", "square",
              "align:True", "align:True+sort", "input:dict", "keys:str", "expected-ValueError", "concat:axis-not-first"]
 
 
@@ -227,10 +227,12 @@ def run_case(case):
                 check(core.same_labels(res.axes[0].values, exp_keys), "keys", {"what": what, "got": core.jsonable(res.axes[0].values), "expected": exp_keys}, sig)
                 mr = core.model_of(res)
                 rd = list(res.dims[1:])
+                fill_needed = False
                 for i, d in enumerate(rd):
                     got = [core.canon_label(x) for x in mr.labels[i + 1]]
                     sets = [set(core.canon_label(x) for x in s["labels"][s["dims"].index(d)]) for s in specs]
                     want = set().union(*sets)
+                    fill_needed = fill_needed or any(s_ != want for s_ in sets)
                     check(len(got) == len(set(got)) and set(got) == want, "secondary-labels", {"what": what, "dim": d, "got": core.jsonable(got), "expected_set": core.jsonable(sorted(want, key=str))}, sig)
                     if not align:
                         check(got == [core.canon_label(x) for x in first["labels"][first["dims"].index(d)]], "secondary-label-order", {"what": what, "dim": d, "got": core.jsonable(got)}, sig)
@@ -246,6 +248,11 @@ def run_case(case):
                     if not core.same_scalar(got, exp):
                         raise Violation("value", {"what": what, "key": core.jsonable(coord[0]), "coord": core.jsonable(c), "got": core.jsonable(got),
                                                   "expected": core.jsonable(exp), "result": core.brief(res)}, sig=sig)
+                if not fill_needed:
+                    # joining does not convert the data: integers joined with integers stay integers (NumPy's rule for the inputs' dtypes)
+                    want_dt = np.result_type(*[x.values.dtype for x in arrays])
+                    check(res.values.dtype == want_dt, "joined-dtype", {"what": what, "got": str(res.values.dtype), "expected": str(want_dt)}, sig)
+                    cl.add("dtype-checked:" + want_dt.kind)
     else:
         cdim = case["cdim"]
         status, c2 = _secondary_status(specs, skip=cdim)
@@ -284,12 +291,14 @@ def run_case(case):
                     exp_c += list(s["labels"][s["dims"].index(cdim)])
                 check(core.same_labels(res.axes[rpos].values, exp_c), "concatenated-labels", {"what": what, "got": core.jsonable(res.axes[rpos].values), "expected": exp_c}, sig)
                 sec_labels = {}
+                fill_needed = False
                 for i, d in enumerate(rd):
                     if d == cdim:
                         continue
                     got = [core.canon_label(x) for x in res.axes[i].values.tolist()]
                     sets = [set(core.canon_label(x) for x in s["labels"][s["dims"].index(d)]) for s in specs]
                     want = set().union(*sets)
+                    fill_needed = fill_needed or any(s_ != want for s_ in sets)
                     check(len(got) == len(set(got)) and set(got) == want, "secondary-labels", {"what": what, "dim": d, "got": core.jsonable(got)}, sig)
                     if not align:
                         check(got == [core.canon_label(x) for x in first["labels"][first["dims"].index(d)]], "secondary-label-order", {"what": what, "dim": d, "got": core.jsonable(got)}, sig)
@@ -316,6 +325,10 @@ def run_case(case):
                                 raise Violation("value", {"what": what, "input": k, "coord": core.jsonable(c), "got": core.jsonable(vals[idx]),
                                                           "expected": core.jsonable(exp), "result": core.brief(res)}, sig=sig)
                     off += len(cl_k)
+                if not fill_needed:
+                    want_dt = np.result_type(*[x.values.dtype for x in arrays])
+                    check(res.values.dtype == want_dt, "joined-dtype", {"what": what, "got": str(res.values.dtype), "expected": str(want_dt)}, sig)
+                    cl.add("dtype-checked:" + want_dt.kind)
     for a, sn in zip(arrays, snaps):
         core.expect_unchanged(a, sn, "join operand", sig)
     # the container handed to the library is an argument too: still the same objects in the same places
